@@ -46,12 +46,19 @@ for d in sorted(glob.glob('/verif/seeded/*/')):
     title = re.sub(r'\s+', ' ', title).replace('|', '\\|')
     files = ', '.join(meta.get('files', [])) if isinstance(meta.get('files'), list) else str(meta.get('files', ''))
     by = ', '.join(conf.get('caught_by') or []) or '—'
+    also = '—'
+    if os.path.exists(d + 'matrix.json'):
+        try:
+            mx = json.load(open(d + 'matrix.json'))
+            also = ', '.join(x for x in (mx.get('caught_by') or []) if x not in (conf.get('caught_by') or [])) or '—'
+        except Exception:
+            also = '?'
     n += 1
     caught += 1 if conf.get('caught_by') else 0
     ok = lambda b: {True: 'yes', False: 'NO', None: '?'}[b]
-    rows.append('| %s | %s (`%s`) | %s / %s | %s | %s | %s | %s |' % (
+    rows.append('| %s | %s (`%s`) | %s / %s | %s | %s | %s | %s | %s |' % (
         sid, title, files, ok(conf.get('demo_fails_with_patch')), ok(conf.get('demo_passes_without_patch')), ok(conf.get('suite_passes_with_patch')),
-        by, ', '.join(kinds)[:160] or '—', STRENGTHENED.get(sid, 'caught by the check as first written')))
+        by, also, ', '.join(kinds)[:160] or '—', STRENGTHENED.get(sid, 'caught by the check as first written')))
 new7 = '''## 7. Trusting the monitors: seeded changes
 
 1. Every check was run on the repaired tree at VERIF_SEED in {1,2,3,7,42} (quick) and at seeds 1,2 (thorough)
@@ -64,12 +71,17 @@ new7 = '''## 7. Trusting the monitors: seeded changes
    with it; then the property's quick check was run against the patched tree (a scratch copy of /verif whose
    go.mod points at the worktree).  The changes live in `seeded/<id>/` (patch.diff, demo_test.go, meta.json,
    confirmation.json = what was run and observed).  %d changes, %d caught by the property's own quick check.
+   Afterwards all 20 quick checks were run against every change (`tools/seedmatrix.sh`, `seeded/<id>/matrix.json`):
+   the column "other checks that also fire" lists checks of *other* properties that report a violation too -
+   each such cell was looked at and is a consequence of the change reaching that check's workload (for instance
+   a group-key change also breaks counting windows with GROUP BY), not noise: no check fires on a change whose
+   code its workload does not execute.
    Where a check missed a change at first it was strengthened (last column) - never by special-casing the
    change, always by widening the workload or tightening an over-tolerant oracle - and re-run on the unchanged
    tree at several seeds.
 
-| id | change (files) | demo fails with / passes without | suite passes with it | caught by | violation kinds reported | how it is caught |
-|---|---|---|---|---|---|---|
+| id | change (files) | demo fails with / passes without | suite passes with it | caught by | other checks that also fire (matrix) | violation kinds reported | how it is caught |
+|---|---|---|---|---|---|---|---|
 %s
 
 3. If a realistic break leaves no trace in what is recorded, observability is added (another witness column,
